@@ -34,7 +34,38 @@ impl VClock {
 }
 
 impl Clock for VClock {
-    fn now(&self) -> SystemTime { UNIX_EPOCH + Duration::from_nanos(self.ns()) }
+    fn now(&self) -> SystemTime {
+        let value = self.ns();
+        // an armed jump: the n-th reading taken by the armed thread still returns the old time, and the clock moves right after it — the way
+        // a real clock moves between two consecutive readings inside one call (a stepped clock, an NTP correction, a second boundary)
+        if JUMP_AFTER.load(Ordering::Relaxed) > 0 && JUMP_TID.load(Ordering::Relaxed) == tid() {
+            if JUMP_AFTER.fetch_sub(1, Ordering::SeqCst) == 1 {
+                self.0.fetch_add(JUMP_DELTA.load(Ordering::SeqCst), Ordering::SeqCst);
+                JUMP_FIRED.fetch_add(1, Ordering::SeqCst);
+            }
+        }
+        UNIX_EPOCH + Duration::from_nanos(value)
+    }
+}
+
+static JUMP_TID: AtomicU64 = AtomicU64::new(0);
+static JUMP_AFTER: AtomicU64 = AtomicU64::new(0);
+static JUMP_DELTA: AtomicU64 = AtomicU64::new(0);
+static JUMP_FIRED: AtomicU64 = AtomicU64::new(0);
+
+/// Arms a clock jump of `delta_ns` right after the `after`-th reading that the CALLING thread takes from now on.
+pub fn arm_clock_jump(after: u64, delta_ns: u64) {
+    JUMP_AFTER.store(0, Ordering::SeqCst);
+    JUMP_TID.store(tid(), Ordering::SeqCst);
+    JUMP_DELTA.store(delta_ns, Ordering::SeqCst);
+    JUMP_FIRED.store(0, Ordering::SeqCst);
+    JUMP_AFTER.store(after, Ordering::SeqCst);
+}
+
+/// Disarms; returns true if the jump happened.
+pub fn disarm_clock_jump() -> bool {
+    JUMP_AFTER.store(0, Ordering::SeqCst);
+    JUMP_FIRED.swap(0, Ordering::SeqCst) > 0
 }
 
 pub fn ns_of(time: SystemTime) -> u128 { time.duration_since(UNIX_EPOCH).map(|d| d.as_nanos()).unwrap_or(0) }
